@@ -45,7 +45,7 @@ def body_queue(S, loop, part):
     log = []
     outstanding = {"outer": 0, "inner": 0, "second": 0}
     failures = []
-    kinds = part["kinds"]                 # kind per outer handler: 0 sync, 1 wait+clear, 2 async coroutine
+    kinds = part["kinds"]                 # kind per outer handler: 0 sync, 1 wait+clear, 2 async coroutine, 3 wait, clear, wait again + clear later
     prio = [S.int("p%d" % i, -1000, 1000) for i in range(3)]
     delay = [S.real("d%d" % i, 0, 1) for i in range(4)]
     nested_from = part["nested_from"]     # which outer handler posts the inner queue event (or None)
@@ -71,7 +71,11 @@ def body_queue(S, loop, part):
         else:
             def h(queue, v=None, **kwargs):
                 enter(v)
-                if kind == 1:
+                if kind == 3:
+                    # a wait that is cleared at once, then a second wait on the same QueuedEvent which stays outstanding
+                    queue.wait()
+                    queue.clear()
+                if kind in (1, 3):
                     queue.wait()
                     outstanding[ev] += 1
 
@@ -145,7 +149,7 @@ def body_queue(S, loop, part):
     cb = [x for x in log if x[0] == "outer" and x[1] == "cb"][0]
     if cb[2] != postv:
         raise Violation("callback-gets-posted-kwargs", "_run_handlers_sequential", "callback saw v=%s, posted %s" % (cb[2], postv))
-    S.note("nontrivial", 1 in kinds or 2 in kinds)
+    S.note("nontrivial", 1 in kinds or 2 in kinds or 3 in kinds)
     S.note("kinds", str(kinds))
 
 
@@ -217,12 +221,13 @@ def body_relay_bool(S, loop, part):
         if len(result) != 1 or result[0].get("v") != cur:
             raise Violation("relay-returns-final-arguments", "_process_event", "relay result %s expected v=%s" % (result, cur))
     else:
-        rets = [S.choice("ret%d" % i, 3) for i in range(3)]           # 0: False, 1: True, 2: None
+        # 0: False, 1: True, 2: None, 3..5: falsy values that are not False (only False itself vetoes)
+        rets = [S.choice("ret%d" % i, 6) for i in range(3)]
 
         def mk(i):
             def h(**kwargs):
                 seen.append(i)
-                return (False, True, None)[rets[i]]
+                return (False, True, None, 0, "", {})[rets[i]]
             return h
         for i in range(3):
             em.add_handler("ev", mk(i), priority=prio[i])
@@ -355,8 +360,9 @@ def scenarios(tier):
             for nf in (None, 0, 1):
                 n = len(qparts)
                 qparts.append(dict(kinds=[k0, k1, (k0 + k1) % 3 if tier == "quick" else 1], nested_from=nf, cond=[bool(n & 1), bool(n & 2)]))
+    qparts += [dict(kinds=[3, 0, 1], nested_from=None, cond=[True, False]), dict(kinds=[1, 3, 0], nested_from=0, cond=[False, True]), dict(kinds=[3, 2, 3], nested_from=1, cond=[True, True])]
     if tier != "quick":
-        qparts += [dict(kinds=[k0, k1, k2], nested_from=nf) for k0 in range(3) for k1 in range(3) for k2 in (0, 2) for nf in (None, 0, 1)]
+        qparts += [dict(kinds=[k0, k1, k2], nested_from=nf) for k0 in range(4) for k1 in range(4) for k2 in (0, 2, 3) for nf in (None, 0, 1)]
     rparts = [dict(type="relay", newkey=[False, False, False], bare=True), dict(type="relay", newkey=[True, False, False], bare=True),
               dict(type="relay", newkey=[False, False, False]), dict(type="relay", newkey=[True, False, False]), dict(type="relay", newkey=[False, True, False]),
               dict(type="relay", newkey=[True, False, True]), dict(type="boolean")]
